@@ -261,6 +261,8 @@ def modelStmt (ver : Version) (mn : MNum) (st : MSt) (s : Stmt) : String × MSt 
           | _, _ => ("na", st))
        | _ => ("na", st))
     | none => ("na", st)
+  | .mkms _ _ _ => ("?", st)      -- stored Matches values: the specification's business
+  | .runm _ _ => ("?", unknownMemo st)
   | .mkseq h =>
     if isV3 then ("ok", { st with seqs := st.seqs.push h }) else ("na", st)
   | .mkseqb h =>
